@@ -144,7 +144,7 @@ Qed.
 Lemma parse_render_num v : parse_num (negb (is_int_num v)) (render_num v) = Some v /\
   has_dot (render_num v) = negb (is_int_num v).
 Proof.
-  destruct v as [z|m k]; cbn [is_int_num negb render_num parse_num].
+  destruct v as [z|m k]; cbn [is_int_num negb render_num parse_num]; unfold py_int, py_float.
   - rewrite Z_of_dec_of_Z, dec_of_Z_no_dot. split; reflexivity.
   - rewrite dec_of_token_render, render_dec_has_dot. split; reflexivity.
 Qed.
